@@ -264,6 +264,21 @@ def check_c07(c, af, a, mf):
         return None
     r, f, e, use_try, width = the_enum_field(c)
     if f.get("base") == "int":
+        # signed fields: only the totality clause is judged here (a getter without a Result is defined for every bit
+        # pattern the field can hold). The getter sees the field zero-extended unless it fills its carrier (see F1).
+        ens = [x for x in af.get("enums", []) if x["name"] == "En"]
+        if not ens:
+            return None
+        from_num = enum_semantics(ens[0])[0]
+        for ff in af["field_sets"][0]["fields"]:
+            g = ff.get("getter")
+            if g and g["conv"] == "unsafe_into" and ens[0].get("try_from"):
+                w = g["end"] - g["start"]
+                cb = int(g["carrier"][1:])
+                dom = range(-(1 << (w - 1)), 1 << (w - 1)) if w == cb else range(1 << min(w, 14))
+                for raw in dom:
+                    if from_num(raw)[0] == "err":
+                        return {"why": f"field {ff['name']} (signed): infallible getter reaches unwrap_unchecked on Err for raw value {raw}", "finding": None}
         return None
     ens = [x for x in af.get("enums", []) if x["name"] == "En"]
     if not ens:
